@@ -300,46 +300,9 @@ def parse_arity_guard(check: Check, rule: str = "X3") -> None:
 
 
 def w2_operand_order(check: Check, rule: str = "W2") -> None:
+    """The order in which Function.parse attaches the popped operands is decided by PD2 (pushdown.parse_postfix); here: Node.evaluate
+    applies a binary element to (left, right) in this order."""
     p = check.program
-    fn = p.func("Function.parse")
-    r = Resolver(p, fn)
-    cfg = r.cfg
-    stores = [(n, t.attr) for n in cfg.stmt_nodes() for t in cfg.stores_at(n) if isinstance(t, ast.Attribute) and t.attr in ("left", "right")
-              and any(c.func.attr == "pop" for c in cfg.calls_in(n) if isinstance(c.func, ast.Attribute))]
-    rights = [n for n, a in stores if a == "right"]
-    lefts = [n for n, a in stores if a == "left"]
-    loops = [h for h in cfg.loop_heads() if lefts and lefts[0] in cfg.loop_body(h)]
-    ok = bool(rights) and bool(lefts) and bool(loops)
-    bad = []
-    if ok:
-        h = loops[-1]
-        body = cfg.loop_body(h)
-
-        def classify(t: Term, e):
-            if t[0] == "attr" and t[2] == "arity":
-                return "arity"
-            if t[0] == "call" and t[1] == ("global", "len") and len(t[2]) == 1:
-                return "depth"
-            if t[0] == "call" and t[1][0] == "attr" and t[1][2] in ("get",) and _mentions_kind(t, "elem"):
-                return "is_element"
-            return None
-
-        ev = RoleEval(r, classify)
-        outside = {n for n in cfg.nodes if n not in body} | {h}
-        for arity in range(0, 3):
-            env = {"arity": arity, "depth": 3, "is_element": True}
-            for k in range(0, 5):
-                env[f"const:{float(k)}"] = k
-            for pa in paths(cfg, body_entry(h), ev, env, outside):
-                order = [("right" if x in rights else "left") for x in pa if x in rights or x in lefts]
-                want = {0: [], 1: ["right"], 2: ["right", "left"]}[arity]
-                if pa[-1].kind != "raise_exit" and order != want:
-                    bad.append({"arity": arity, "assigned": order, "expected": want})
-        ok = not bad
-    check.require(ok, rule, "Function.parse/operand-order", "a unary element takes the popped operand as `right`; a binary element "
-                  "takes the first popped operand as `right` and the second as `left`"
-                  if ok else f"operands are attached in the wrong order: {bad[:3]}", loc(fn, (lefts or rights or [cfg.entry])[0]),
-                  exhaustive=True, cases=3)
     ev_fn = p.func("Function.Node.evaluate")
     check.analysed(ev_fn)
     r2 = Resolver(p, ev_fn)
